@@ -109,7 +109,7 @@ def all_cases(ctx):
             L = gs.catalogue_layout(lname, random.Random(f's{i}:{lname}'))
             cases.append(mkcase(prog, gs.render(prog, L), L.wrap_rhs, 'stress:' + lname, seed))
     rng = ctx.sub_rng('sampled')
-    n_big = (2500 if quick else 20000) * ctx.scale
+    n_big = (4000 if quick else 20000) * ctx.scale
     cfg = gs.GenConfig(max_equations=12, max_depth=4, max_lag=3, max_lead=2)
     cfg_deep = gs.GenConfig(max_equations=12, max_depth=3, max_lag=12, max_lead=10)
     for i in range(n_big):
@@ -287,7 +287,7 @@ def compare(case, impl, forms, rep):
 
 
 def run_cases(ctx, rep, cases):
-    impls = [observe(c, rep) for c in cases]
+    impls = ec.observe_all(observe, cases, rep, ctx.workers)
     if ctx.oracle_only:
         return
     todo = [(c, i) for c, i in zip(cases, impls) if i is not None]
@@ -302,8 +302,8 @@ def run_cases(ctx, rep, cases):
 
 def run(ctx, rep):
     cases = all_cases(ctx)
-    for lo in range(0, len(cases), 1000):
-        run_cases(ctx, rep, cases[lo:lo + 1000])
+    for lo in range(0, len(cases), 20000):
+        run_cases(ctx, rep, cases[lo:lo + 20000])
     rep.notes.append(f'{len(cases)} programs')
     rep.exhaustive = False
 
